@@ -54,6 +54,15 @@ pub enum UStep {
         #[serde(default)]
         buffered_ka: bool,
     },
+    /// the peer sends one datagram with several frames; the application reads the first, sends a
+    /// fresh handshake (IS_ISI may be re-sent on a live connection to change flags), then reads
+    /// the rest: nothing already received may be lost, and the ISI is one datagram
+    HandshakeMidDatagram {
+        #[serde(with = "hex")]
+        dgram: Vec<u8>,
+        #[serde(with = "hex")]
+        isi: Vec<u8>,
+    },
     /// the application starts a read while nothing is queued and drops it after its first poll
     /// (select! with a branch that is ready at once); later datagrams must be unaffected
     /// (tokio adaptor only)
@@ -84,6 +93,9 @@ enum UEv {
     Idle { res: AppRes },
     /// outcome of a read dropped after one poll: None = it was pending (expected)
     Cancelled { completed: Option<AppRes> },
+    /// a read returned Disconnected for an empty datagram and was repeated
+    EmptyDatagramSurfaced,
+    Handshook { res: AppRes },
     /// peer restarted; results of the write while it was down and of the writes afterwards,
     /// each with the datagrams the new peer socket received right after it
     Bounced {
@@ -207,13 +219,25 @@ fn run_udp(sc: &UdpSc) -> UdpRun {
                             }
                             events.push(UEv::PeerSent { bytes: d.len() });
                         }
-                        for _ in 0..frames_in(sc.mode, ds) {
+                        let mut empties = ds.iter().filter(|d| d.is_empty()).count();
+                        let mut todo = frames_in(sc.mode, ds);
+                        while todo > 0 || empties > 0 {
+                            if todo == 0 {
+                                // only empty datagrams left in the queue: they may or may not surface
+                                break;
+                            }
                             let r = guarded(|| framed.read());
                             let res = match r {
                                 Err(p) => AppRes::Other(format!("panic: {}", p)),
                                 Ok(Ok(p)) => AppRes::Pkt(format!("{:?}", p)),
                                 Ok(Err(e)) => AppRes::from_err(&e),
                             };
+                            if res == AppRes::Disconnected && empties > 0 {
+                                empties -= 1;
+                                events.push(UEv::EmptyDatagramSurfaced);
+                                continue;
+                            }
+                            todo -= 1;
                             let stop = !matches!(res, AppRes::Pkt(_) | AppRes::Decode(_) | AppRes::IncompatibleVersion(_));
                             events.push(UEv::Read { res });
                             drain_peer(&peer, &mut events);
@@ -281,6 +305,39 @@ fn run_udp(sc: &UdpSc) -> UdpRun {
                         events.push(UEv::Bounced { lost: lost_res, after: results, pre, down, tail });
                     },
                     UStep::CancelledRead => {},
+                    UStep::HandshakeMidDatagram { dgram, isi } => {
+                        if peer.send(dgram).is_err() {
+                            return UdpRun { events, harness_error: Some("peer send".into()) };
+                        }
+                        events.push(UEv::PeerSent { bytes: dgram.len() });
+                        let n = frames_in(sc.mode, std::slice::from_ref(dgram));
+                        for k in 0..n {
+                            if k == 1 {
+                                let res = match ref_decode_packet(sc.mode, isi).1 {
+                                    Some(insim::Packet::Isi(i)) => match guarded(|| framed.handshake(i)) {
+                                        Err(p) => AppRes::Other(format!("panic: {}", p)),
+                                        Ok(Ok(())) => AppRes::Done,
+                                        Ok(Err(e)) => AppRes::from_err(&e),
+                                    },
+                                    _ => AppRes::Done,
+                                };
+                                events.push(UEv::Handshook { res });
+                                drain_peer(&peer, &mut events);
+                            }
+                            let r = guarded(|| framed.read());
+                            let res = match r {
+                                Err(p) => AppRes::Other(format!("panic: {}", p)),
+                                Ok(Ok(p)) => AppRes::Pkt(format!("{:?}", p)),
+                                Ok(Err(e)) => AppRes::from_err(&e),
+                            };
+                            let stop = !matches!(res, AppRes::Pkt(_) | AppRes::Decode(_) | AppRes::IncompatibleVersion(_));
+                            events.push(UEv::Read { res });
+                            drain_peer(&peer, &mut events);
+                            if stop {
+                                return UdpRun { events, harness_error: None };
+                            }
+                        }
+                    },
                     UStep::IdleRead => {
                         let r = guarded(|| framed.read());
                         let res = match r {
@@ -322,7 +379,45 @@ fn run_udp(sc: &UdpSc) -> UdpRun {
                                 peer.send(d).map_err(|e| e.to_string())?;
                                 events.push(UEv::PeerSent { bytes: d.len() });
                             }
-                            for _ in 0..frames_in(sc.mode, ds) {
+                            let mut empties = ds.iter().filter(|d| d.is_empty()).count();
+                            let mut todo = frames_in(sc.mode, ds);
+                            while todo > 0 {
+                                let res = match tokio::time::timeout(OP_TIMEOUT, framed.read()).await {
+                                    Err(_) => AppRes::Other("no result within the 3 s guard although the peer's datagrams were already queued".into()),
+                                    Ok(Ok(p)) => AppRes::Pkt(format!("{:?}", p)),
+                                    Ok(Err(e)) => AppRes::from_err(&e),
+                                };
+                                if res == AppRes::Disconnected && empties > 0 {
+                                    empties -= 1;
+                                    events.push(UEv::EmptyDatagramSurfaced);
+                                    continue;
+                                }
+                                todo -= 1;
+                                let stop = !matches!(res, AppRes::Pkt(_) | AppRes::Decode(_) | AppRes::IncompatibleVersion(_));
+                                events.push(UEv::Read { res });
+                                drain_peer(&peer, &mut events);
+                                if stop {
+                                    return Ok(());
+                                }
+                            }
+                        },
+                        UStep::HandshakeMidDatagram { dgram, isi } => {
+                            peer.send(dgram).map_err(|e| e.to_string())?;
+                            events.push(UEv::PeerSent { bytes: dgram.len() });
+                            let n = frames_in(sc.mode, std::slice::from_ref(dgram));
+                            for k in 0..n {
+                                if k == 1 {
+                                    let res = match ref_decode_packet(sc.mode, isi).1 {
+                                        Some(insim::Packet::Isi(i)) => match tokio::time::timeout(OP_TIMEOUT, framed.handshake(i, OP_TIMEOUT)).await {
+                                            Err(_) => AppRes::Other("handshake did not finish".into()),
+                                            Ok(Ok(())) => AppRes::Done,
+                                            Ok(Err(e)) => AppRes::from_err(&e),
+                                        },
+                                        _ => AppRes::Done,
+                                    };
+                                    events.push(UEv::Handshook { res });
+                                    drain_peer(&peer, &mut events);
+                                }
                                 let res = match tokio::time::timeout(OP_TIMEOUT, framed.read()).await {
                                     Err(_) => AppRes::Other("no result within the 3 s guard although the peer's datagrams were already queued".into()),
                                     Ok(Ok(p)) => AppRes::Pkt(format!("{:?}", p)),
@@ -515,6 +610,7 @@ impl Prop for C08 {
         let max_frames = *rng.pick(&[1usize, 1, 2, 4, 16, 64]);
         let idle_reads = rng.chance(1, 3);
         let bounces = rng.chance(1, 3);
+        let empties = rng.chance(1, 3);
         let cancels = rng.chance(1, 2);
         let mut steps = Vec::new();
         let mut sent = 0usize;
@@ -528,6 +624,9 @@ impl Prop for C08 {
                     Some(f) if rng.chance(15, 16) => f.clone(),
                     _ => datagram(rng, mode, &mix, stats, max_frames, None),
                 };
+                // an empty datagram (a probe, a misbehaving relay): it may surface as one
+                // Disconnected, but must not cost any later packet
+                let put_empty = empties && rng.chance(1, 30);
                 // network faults, applied by the peer script: loss, duplication, reordering
                 match rng.below(40) {
                     0 => {
@@ -536,18 +635,32 @@ impl Prop for C08 {
                     },
                     1 => {
                         notes.push("dup");
+                        if put_empty {
+                            notes.push("empty");
+                            burst.push(Vec::new());
+                        }
                         burst.push(d.clone());
                         burst.push(d.clone());
                         sent += 2 * d.len();
                     },
                     2 if prev.is_some() => {
                         notes.push("reorder");
+                        if put_empty {
+                            notes.push("empty");
+                            burst.push(Vec::new());
+                        }
                         burst.push(d.clone());
                         burst.push(prev.clone().unwrap());
                         sent += d.len() + prev.as_ref().unwrap().len();
                     },
                     _ => {
                         sent += d.len();
+                        // always followed by a real datagram of the same burst, so that it is
+                        // consumed before the burst's reads are over
+                        if put_empty {
+                            notes.push("empty");
+                            burst.push(Vec::new());
+                        }
                         burst.push(d.clone());
                     },
                 }
@@ -564,6 +677,32 @@ impl Prop for C08 {
             }
             if imp == Imp::Tokio && cancels && rng.chance(1, 6) {
                 steps.push(UStep::CancelledRead);
+            }
+            if rng.chance(1, 50) {
+                // several non-keep-alive frames in one datagram, a handshake after the first
+                let nomix = FrameMix { keepalive: 0, ver: 0, ..mix.clone() };
+                let mut d = Vec::new();
+                for _ in 0..rng.usize(2, 5) {
+                    let f = gen::gen_frame(rng, mode, &nomix, stats);
+                    if d.len() + f.len() > 1020 {
+                        break;
+                    }
+                    if matches!(expect_for(mode, false, &f), Expect::Pkt { keepalive: true, .. }) {
+                        continue;
+                    }
+                    d.extend_from_slice(&f);
+                }
+                let mut isi = vec![0u8; 44];
+                isi[0] = mode.size_byte(44);
+                isi[1] = 1;
+                isi[2] = rng.byte();
+                isi[6] = rng.byte() & 0xFC;
+                isi[7] = rng.byte() & 0x0F;
+                isi[8] = 9;
+                isi[28] = b'x';
+                if crate::model::ref_decode(mode, &isi).is_pkt() && split_frames(mode, &d).len() >= 2 {
+                    steps.push(UStep::HandshakeMidDatagram { dgram: d, isi });
+                }
             }
             if bounces && rng.chance(1, 40) {
                 steps.push(UStep::Bounce {
@@ -634,6 +773,9 @@ impl Prop for C08 {
                         } else {
                             spare -= d.len();
                         }
+                        if d.is_empty() {
+                            rep.fault("empty_datagram");
+                        }
                         let nfr = split_frames(sc.mode, d).len();
                         if nfr > 1 {
                             rep.probe("several_frames_per_datagram");
@@ -641,7 +783,7 @@ impl Prop for C08 {
                         if d.len() > 512 {
                             rep.probe("datagram_gt_512");
                         }
-                        sig.u64((d.len() as u64).ilog2() as u64);
+                        sig.u64((d.len() as u64 + 1).ilog2() as u64);
                         sig.u64(nfr.min(5) as u64);
                     }
                     let mut kas = 0usize;
@@ -654,6 +796,10 @@ impl Prop for C08 {
                             let want = render(&e);
                             let is_ka = matches!(e, Expect::Pkt { keepalive: true, .. });
                             expected_reads.push(want.clone());
+                            while let Some(UEv::EmptyDatagramSurfaced) = evs.get(ev_i) {
+                                ev_i += 1;
+                                rep.probe("empty_datagram_surfaced_as_disconnected");
+                            }
                             match next(&mut ev_i) {
                                 Some(UEv::Read { res }) => {
                                     let got = render_res(res);
@@ -707,6 +853,63 @@ impl Prop for C08 {
                     }
                     if kas > 0 {
                         rep.probe("keepalive_over_udp");
+                    }
+                },
+                UStep::HandshakeMidDatagram { dgram, isi } => {
+                    match next(&mut ev_i) {
+                        Some(UEv::PeerSent { .. }) => {},
+                        _ => break 'steps,
+                    }
+                    total_in += dgram.len();
+                    rep.probe("handshake_with_frames_buffered");
+                    let isi_exp = ref_decode_packet(sc.mode, isi).1.and_then(|p| ref_encode(sc.mode, &p).ok()).map(|b| hex::enc(&b));
+                    let frames = split_frames(sc.mode, dgram);
+                    for (k, f) in frames.iter().enumerate() {
+                        if f.kind != FrameKind::Complete {
+                            continue;
+                        }
+                        if k == 1 {
+                            match next(&mut ev_i) {
+                                Some(UEv::Handshook { res }) => {
+                                    if *res != AppRes::Done {
+                                        rep.violations.push(v("udp.write_failed", format!("{} handshake on a live connection failed: {:?}", tag, res)));
+                                        break 'steps;
+                                    }
+                                },
+                                _ => break 'steps,
+                            }
+                            let mut got_d = Vec::new();
+                            while let Some(UEv::PeerGot { dgram }) = evs.get(ev_i) {
+                                got_d.push(dgram.clone());
+                                ev_i += 1;
+                            }
+                            if let Some(e) = &isi_exp {
+                                if got_d != vec![e.clone()] {
+                                    rep.violations.push(v("udp.write_datagram", format!("{} the re-sent handshake reached the peer as {:?} instead of one datagram {}", tag, got_d, e)));
+                                    break 'steps;
+                                }
+                            }
+                        }
+                        let e = expect_for(sc.mode, false, &dgram[f.start..f.start + f.len]);
+                        let want = render(&e);
+                        match next(&mut ev_i) {
+                            Some(UEv::Read { res }) => {
+                                let got = render_res(res);
+                                h.write(got.as_bytes());
+                                if got != want {
+                                    rep.violations.push(v(
+                                        if matches!(res, AppRes::Pkt(_) | AppRes::Decode(_)) { "udp.wrong_packet" } else { "udp.read_failed" },
+                                        format!("{} packet {} of a {}-packet datagram, read {} a handshake was re-sent: expected {}, got {}", tag, k + 1, frames.len(), if k >= 1 { "after" } else { "before" }, want.chars().take(120).collect::<String>(), got.chars().take(160).collect::<String>()),
+                                    ));
+                                    break 'steps;
+                                }
+                            },
+                            _ => break 'steps,
+                        }
+                        if let Some(UEv::PeerGot { dgram }) = evs.get(ev_i) {
+                            rep.violations.push(v("udp.unsolicited_datagram", format!("{} the peer received {} during a read", tag, dgram)));
+                            break 'steps;
+                        }
                     }
                 },
                 UStep::CancelledRead => {
@@ -1008,6 +1211,8 @@ impl Prop for C08 {
             "peer_crash_and_restart",
             "crash_with_buffered_keepalive",
             "read_dropped_after_first_poll",
+            "empty_datagram",
+            "handshake_with_frames_buffered",
             "unencodable_packet_written",
             "blocking_runs",
             "tokio_runs",
